@@ -16,5 +16,5 @@ ASSUMPTIONS = ["re.finditer semantics; ET.TreeBuilder builds the tree it is told
 
 
 def run(project, rep):
-    P.x_rules(project, rep)
-    P.p_rules(project, rep)
+    rep.run(P.x_rules, project, rep)
+    rep.run(P.p_rules, project, rep)
